@@ -177,6 +177,8 @@ def build(n, edges, names, validate=True):
             # the edge arrives with another type and is directed afterwards
             g.add_edge(names[a], names[b], edge_type=['o>', '--', '<>', 'oo', 'o-'][(n + k) % 5])
             retype.append((names[a], names[b]))
+        elif validate and (n + 5 * k + len(edges)) % 4 == 1:
+            g.add_edge(names[a], names[b], validate=False)         # (the graph is a DAG by construction: nothing to validate)
         else:
             g.add_edge(names[a], names[b], validate=validate)
     for a, b in retype:
